@@ -65,6 +65,14 @@ func handSpecs() []*Spec {
 				{Name: "gatedItems", Req: []string{"a"}, Conn: &ConnSpec{Prefix: "GatedItem", Node: "Item!", Impl: []string{"Things"}}},
 			}},
 		), pageInfoSpec())},
+		// deprecated and gated at once: fields (object and interface) and a deprecated value of a gated enum
+		{Query: "Query", Types: withBuiltins(
+			TypeSpec{Kind: "enum", Name: "Mode", Req: []string{"a"}, Values: []string{"OLD", "NEW"}, DepValues: []string{"OLD"}},
+			TypeSpec{Kind: "enum", Name: "Open", Values: []string{"X", "Y"}, DepValues: []string{"Y"}},
+			TypeSpec{Kind: "interface", Name: "Thing", Fields: []FieldSpec{{Name: "id", Type: "ID"}, {Name: "legacy", Type: "Mode", Req: []string{"a"}, Deprecated: true}, {Name: "old", Type: "Int", Deprecated: true}}},
+			TypeSpec{Kind: "object", Name: "Widget", Ifaces: []string{"Thing"}, Fields: []FieldSpec{{Name: "id", Type: "ID"}, {Name: "legacy", Type: "Mode", Req: []string{"a"}, Deprecated: true}, {Name: "old", Type: "Int", Deprecated: true}, {Name: "gated", Type: "Int", Req: []string{"a"}}}},
+			TypeSpec{Kind: "object", Name: "Query", Fields: []FieldSpec{{Name: "thing", Type: "Thing"}, {Name: "open", Type: "Open"}, {Name: "mode", Type: "Mode", Req: []string{"a"}, Deprecated: true}}},
+		)},
 		// connections with features
 		{Query: "Query", Types: append(withBuiltins(
 			TypeSpec{Kind: "object", Name: "Item", Fields: []FieldSpec{{Name: "n", Type: "Int"}}},
